@@ -251,8 +251,11 @@ pub fn c06(args: &Args, reg: &[TypeEntry], log: &mut Log) {
 
     for (cfg_i, init, ops) in plans {
         let cfg = &CONFIGS[cfg_i];
+        // now and then the whole output tree is removed in the middle of the history (a cleaned bindings directory): what counts
+        // is what is exported after that
+        let clean_at: Option<usize> = if init == 0 && ops.len() >= 2 && rng.chance(1, 5) { Some(1 + rng.below(ops.len() - 1)) } else { None };
         let mut want: BTreeSet<(String, String)> = BTreeSet::new();
-        for (op, _) in &ops {
+        for (op, _) in &ops[clean_at.unwrap_or(0)..] {
             want.extend(w.decls_of(op));
         }
         let canon = w.canonical(cfg.dname, &want, &mut cache);
@@ -270,6 +273,12 @@ pub fn c06(args: &Args, reg: &[TypeEntry], log: &mut Log) {
         let mut problem: Option<(String, String)> = None;
         let mut trace = vec![];
         for (k, (op, _)) in ops.iter().enumerate() {
+            if clean_at == Some(k) {
+                clear_dir(&w.root);
+                w.set_env(cfg);
+                so_far.clear();
+                trace.push(json!({"op": "remove the output tree"}));
+            }
             let r = run_op(reg, op);
             steps += 1;
             trace.push(json!({"op": op.describe(reg), "result": r.json()}));
@@ -335,7 +344,7 @@ pub fn c06(args: &Args, reg: &[TypeEntry], log: &mut Log) {
             }
             shared
         };
-        distinct.insert(format!("{}|{}|{}|{}", cfg.name, init_name, shape.join(">"), same_file));
+        distinct.insert(format!("{}|{}|{}|{}{}", cfg.name, init_name, shape.join(">"), same_file, if clean_at.is_some() { "|cleaned" } else { "" }));
         if sample.is_none() && ops.len() >= 3 {
             sample = Some(json!({"config": cfg.name, "initial": init_name, "history": trace.clone(),
                 "final_files": fin.keys().cloned().collect::<Vec<_>>()}));
@@ -461,6 +470,7 @@ pub fn c17(args: &Args, reg: &[TypeEntry], log: &mut Log) {
             let mut retry = true;
             let mut ok_allowed = false;
             let mut from_root_dir = false;
+            let mut replay_earlier = false;
             let mut target_set: BTreeSet<String> = w
                 .decls_of(op)
                 .iter()
@@ -494,7 +504,13 @@ pub fn c17(args: &Args, reg: &[TypeEntry], log: &mut Log) {
                     let bytes = std::fs::read(&full).unwrap();
                     std::fs::remove_file(&full).unwrap();
                     std::fs::create_dir(&full).unwrap();
-                    cleanup.push(Cleanup::Restore(full.clone(), bytes));
+                    if rng.chance(1, 2) {
+                        // the file is gone for good (the directory that took its place is simply removed): the retry starts the
+                        // file again, and the steps before are repeated - everything they wrote there has to come back
+                        replay_earlier = true;
+                    } else {
+                        cleanup.push(Cleanup::Restore(full.clone(), bytes));
+                    }
                     cleanup.push(Cleanup::RemoveDir(full));
                 }
                 Obstacle::ExistingTargetEmptied => {
@@ -675,6 +691,12 @@ pub fn c17(args: &Args, reg: &[TypeEntry], log: &mut Log) {
                 trace.push(json!({"op": op.describe(reg), "retry": true, "result": r2.json()}));
                 if !r2.is_ok() && problem.is_none() {
                     problem = Some(("retry-failed".into(), format!("{} after removing {obstacle:?} -> {:?}", op.describe(reg), r2)));
+                }
+            }
+            if replay_earlier {
+                for earlier in &ops[..i] {
+                    let r3 = run_op(reg, earlier);
+                    trace.push(json!({"op": earlier.describe(reg), "again": true, "result": r3.json()}));
                 }
             }
         }
